@@ -54,6 +54,26 @@ def run(chk):
                           "replay: printf 'query\\t%s\\t\\tstring(%%2Fr)\\tstring(%%2Fr%%2F%%40t)\\n' | harness/target/debug/xmlrs-driver\n"
                           % (lib.enc(t), a, want, lib.enc(t).replace("%", "%%")))
             mfail.append((t, a, "ok", "ok"))
+    # ---- attributes and namespace declarations supplied by attribute-list defaults NEXT TO written ones: a default is used only
+    #      when the start tag does not carry that attribute (XML 1.0 3.3.2) - for a namespace declaration as for any other attribute
+    #      (round-9 seed C01-N let a written `xmlns:p` and its default both through); items and namespace view against the model
+    NSDEF = ['<!DOCTYPE r [<!ATTLIST r xmlns:p CDATA "urn:default">]><r xmlns:p="urn:own"><p:a/></r>',
+             '<!DOCTYPE r [<!ATTLIST c xmlns CDATA "urn:d">]><r><c xmlns=""/><c/><c xmlns="urn:own"><d/></c></r>',
+             '<!DOCTYPE r [<!ATTLIST r a CDATA "d" xmlns:q CDATA "urn:q" b CDATA "e">]><r a="own"><q:k/></r>',
+             '<!DOCTYPE r [<!ATTLIST r xmlns:p CDATA "urn:d1" xmlns:q CDATA "urn:d2" p:a CDATA "pa">]><r xmlns:q="urn:own" p:a="w"/>',
+             '<!DOCTYPE r [<!ATTLIST r xmlns CDATA "urn:d"><!ATTLIST r xmlns CDATA "urn:second">]><r><k xmlns=""/></r>']
+    for opn in ("parse", "nsinfo"):
+        ia = lib.run_lines(lib.build_harness(), [lib.req(opn, t) for t in NSDEF], timeout=120, per_line_resume=True)
+        ib = lib.run_lines(lib.model_driver(), [lib.req(opn, t) for t in NSDEF], timeout=120)
+        for t, a, b in zip(NSDEF, ia, ib):
+            chk.count([opn, t], nontrivial=True)
+            if a != b:
+                chk.violation("defaults_%s_%s" % (opn, lib.enc(t)[-40:]),
+                              "property C01: attributes / namespace declarations of an element with attribute-list defaults next to written "
+                              "ones (%s view)\ninput (percent-encoded): %s\nimplementation: %s\nexpected:       %s\n"
+                              "replay: printf '%s\\t%s\\n' | harness/target/debug/xmlrs-driver\n"
+                              % (opn, lib.enc(t), a[:900], b[:900], opn, lib.enc(t).replace("%", "%%")))
+                mfail.append((t, a, "ok", "ok"))
     # ---- the reviewed grammar as reference: whatever it derives (and the model's well-formedness checks pass) must be accepted
     refs = X.reference_stream(rng, 1200 if thorough else 300, 500 if thorough else 150)
     ref_ok = 0
